@@ -135,7 +135,7 @@ func c15R1(c *Ctx) {
 							return false
 						}
 						f := call.Common().StaticCallee()
-						return f != nil && f.Name() == "buildExpression" && len(call.Call.Args) > 0 && call.Call.Args[0] == ssa.Value(fn.Params[0])
+						return f != nil && funcSimpleName(f) == "buildExpression" && len(call.Call.Args) > 0 && call.Call.Args[0] == ssa.Value(fn.Params[0])
 					})
 				case "disabled":
 					disabledOK = derivesFrom(x.Value, func(v ssa.Value) bool {
